@@ -35,6 +35,7 @@ import (
 	"github.com/sirupsen/logrus"
 
 	"verifharness/internal/fakes"
+	"verifharness/internal/quiesce"
 	"verifharness/internal/vio"
 )
 
@@ -185,6 +186,7 @@ type node struct {
 	mu   sync.Mutex
 	got  []gotMsg
 	ends map[string]*halfConn
+	gate *nodeGate
 }
 
 type gotMsg struct {
@@ -203,7 +205,77 @@ type mesh struct {
 
 type psHandler struct{}
 
+// ---- scheduler gates (hook floodsub.VerifGate): in lockstep behaviours every node's Execute loop parks at its two gate
+// points ("top" before an iteration, "break" between the iteration's two steps) and is released by the recorded schedule.
+type nodeGate struct {
+	mu      sync.Mutex
+	enabled bool
+	parked  string
+	ch      chan struct{}
+}
+
+var gates sync.Map // *floodsub.FloodSub -> *nodeGate
+
+func gateHook(fs *floodsub.FloodSub, name string) {
+	v, ok := gates.Load(fs)
+	if !ok {
+		return
+	}
+	g := v.(*nodeGate)
+	g.mu.Lock()
+	if !g.enabled {
+		g.mu.Unlock()
+		return
+	}
+	ch := make(chan struct{})
+	g.parked, g.ch = name, ch
+	g.mu.Unlock()
+	if os.Getenv("VERIF_LOG") != "" {
+		fmt.Fprintf(os.Stderr, "gate %p parked %s seq=%d\n", fs, name, gseq.Load())
+	}
+	<-ch
+	if os.Getenv("VERIF_LOG") != "" {
+		fmt.Fprintf(os.Stderr, "gate %p released %s seq=%d\n", fs, name, gseq.Load())
+	}
+}
+
+func (g *nodeGate) release() {
+	g.mu.Lock()
+	if g.ch != nil {
+		close(g.ch)
+		g.ch, g.parked = nil, ""
+	}
+	g.mu.Unlock()
+}
+
+func (g *nodeGate) disable() {
+	g.mu.Lock()
+	g.enabled = false
+	g.mu.Unlock()
+	g.release()
+}
+
+func (g *nodeGate) at() string {
+	g.mu.Lock()
+	defer g.mu.Unlock()
+	return g.parked
+}
+
+func (g *nodeGate) waitParked(name string, d time.Duration) bool {
+	for dl := time.Now().Add(d); time.Now().Before(dl); time.Sleep(200 * time.Microsecond) {
+		if g.at() == name {
+			return true
+		}
+	}
+	return g.at() == name
+}
+
 func newMesh(le *logrus.Entry, tag string, names []string, topo [][]string) *mesh {
+	return newMeshGated(le, tag, names, topo, false)
+}
+
+// newMeshGated: with lockstepMesh the nodes park at their gate points
+func newMeshGated(le *logrus.Entry, tag string, names []string, topo [][]string, lockstepMesh bool) *mesh {
 	ctx, cancel := context.WithCancel(context.Background())
 	m := &mesh{ctx: ctx, cancel: cancel, net: &network{}, nodes: map[string]*node{}, names: map[string]string{}}
 	m.net.lastAct.Store(time.Now().UnixNano())
@@ -214,7 +286,10 @@ func newMesh(le *logrus.Entry, tag string, names []string, topo [][]string) *mes
 		if err != nil {
 			vio.Fatal("%v", err)
 		}
-		nd := &node{name: n, key: k, id: id, ps: ps, ends: map[string]*halfConn{}}
+		nd := &node{name: n, key: k, id: id, ps: ps, ends: map[string]*halfConn{}, gate: &nodeGate{enabled: lockstepMesh}}
+		if lockstepMesh {
+			gates.Store(ps, nd.gate)
+		}
 		m.nodes[n] = nd
 		m.names[id.String()] = n
 		go func() { _ = ps.Execute(ctx) }()
@@ -307,6 +382,10 @@ func (m *mesh) subscribe(n *node) {
 }
 
 func (m *mesh) close() {
+	for _, nd := range m.nodes {
+		nd.gate.disable()
+		gates.Delete(nd.ps)
+	}
 	m.cancel()
 	for _, n := range m.nodes {
 		n.ps.Close()
@@ -421,18 +500,72 @@ func runMesh(bi int, b behaviour, le *logrus.Entry, rows *[]map[string]any) {
 		names = append(names, n)
 	}
 	sort.Strings(names)
-	m := newMesh(le, fmt.Sprint(bi), names, b.Topo)
+	// a behaviour that names the iterations of the nodes' loops is replayed in lockstep (FloodSubDyn.tla with the hold-break)
+	iterLeft := 0
+	for _, s := range b.Steps {
+		if s.A == "itera" || s.A == "iterb" {
+			iterLeft++
+		}
+	}
+	lockstep := iterLeft > 0
+	m := newMeshGated(le, fmt.Sprint(bi), names, b.Topo, lockstep)
 	defer m.close()
+	// an environment step issued while a node is parked inside its loop may block on that node's lock (when the loop holds it
+	// at the gate point): it is then completed by the release of that node
+	var pendingEnv []chan struct{}
+	env := func(f func()) {
+		if !lockstep {
+			f()
+			return
+		}
+		done := make(chan struct{})
+		go func() { f(); close(done) }()
+		select {
+		case <-done:
+		case <-time.After(300 * time.Millisecond):
+			pendingEnv = append(pendingEnv, done)
+		}
+	}
+	// drainEnv waits for the blocked environment steps; while nodes are still parked (final = false) one that stays blocked
+	// (on the lock of another parked node) is kept for later
+	drainEnv := func(final bool) {
+		var keep []chan struct{}
+		for _, d := range pendingEnv {
+			wait := 300 * time.Millisecond
+			if final {
+				wait = 10 * time.Second
+			}
+			select {
+			case <-d:
+			case <-time.After(wait):
+				if final {
+					vio.Fatal("environment step never completed")
+				}
+				keep = append(keep, d)
+			}
+		}
+		pendingEnv = keep
+	}
+	freeRun := func() {
+		if lockstep {
+			lockstep = false
+			for _, nd := range m.nodes {
+				nd.gate.disable()
+			}
+			drainEnv(true)
+		}
+	}
 	emit(map[string]any{"e": "reset", "b": bi, "topo": b.Topo, "nodes": names})
 	subs := map[string]bool{}
 	_ = vio.Rand
 	// announced(): does the last subscription announcement on every link agree with the node's local subscription?
 	// (used only to decide when waiting is over: the Execute loop announces changes on a 100 ms tick that can be late under load)
+	cut := map[[2]string]int64{} // per directed link: frames up to this sequence number went over a stream that was replaced since
 	announced := func() bool {
 		last := map[[2]string]bool{}
 		m.net.mu.Lock()
 		for _, e := range m.net.sent {
-			if e.Injected {
+			if e.Injected || e.Seq <= cut[[2]string{e.From, e.To}] {
 				continue
 			}
 			for _, so := range e.Pkt.GetSubscriptions() {
@@ -536,6 +669,9 @@ func runMesh(bi int, b behaviour, le *logrus.Entry, rows *[]map[string]any) {
 		linkIDs[e[0]+"|"+e[1]] = uint64(li + 1) // as assigned by newMesh
 	}
 	for _, s := range b.Steps {
+		if os.Getenv("VERIF_LOG") != "" {
+			fmt.Fprintf(os.Stderr, "step %s %s %v seq=%d\n", s.A, s.N, s.Subs, gseq.Load())
+		}
 		switch s.A {
 		case "init":
 			for _, n := range s.Subs {
@@ -544,18 +680,60 @@ func runMesh(bi int, b behaviour, le *logrus.Entry, rows *[]map[string]any) {
 			}
 			emit(map[string]any{"e": "init", "subs": s.Subs})
 			checkpoint()
+		case "itera", "iterb":
+			// one step of node s.N's loop, as scheduled by the model
+			iterLeft--
+			if lockstep {
+				g := m.nodes[s.N].gate
+				if s.A == "itera" {
+					if !g.waitParked("top", 5*time.Second) {
+						vio.Fatal("lockstep: node %s never reached the top of its loop", s.N)
+					}
+					g.release()
+					if !g.waitParked("break", 5*time.Second) {
+						vio.Fatal("lockstep: node %s never reached the hold-break", s.N)
+					}
+				} else {
+					if g.at() != "break" {
+						vio.Fatal("lockstep: node %s is not at the hold-break", s.N)
+					}
+					g.release()
+					drainEnv(false)
+					// the second step of the iteration is over when the loop is parked again (waiting for a wake-up, the tick or
+					// the next gate); lockstep behaviours run alone in the process, so every Execute goroutine is one of ours
+					_ = quiesce.Wait([]string{"floodsub.(*FloodSub).Execute"}, nil, 5*time.Second, nil)
+				}
+				if iterLeft == 0 {
+					freeRun()
+				}
+			}
 		case "toggle":
 			nd := m.nodes[s.N]
 			if subs[s.N] {
-				nd.sub.Release()
+				sub := nd.sub
+				env(func() { sub.Release() })
 				nd.sub = nil
 				subs[s.N] = false
 			} else {
-				m.subscribe(nd)
+				env(func() { m.subscribe(nd) })
 				subs[s.N] = true
 			}
 			emit(map[string]any{"e": "toggle", "n": s.N, "on": subs[s.N]})
-			if s.W {
+			if s.W && !lockstep {
+				checkpoint()
+			}
+		case "break":
+			// the pubsub stream of an existing link breaks: both ends are closed, frames in flight are lost; the link stays up
+			if na := m.nodes[s.Subs[0]]; na != nil {
+				if old := na.ends[s.Subs[1]]; old != nil {
+					m.retire(old)
+					m.retire(old.peerEnd)
+				}
+			}
+			sq := gseq.Add(1)
+			cut[[2]string{s.Subs[0], s.Subs[1]}], cut[[2]string{s.Subs[1], s.Subs[0]}] = sq, sq
+			emit(map[string]any{"e": "break", "a": s.Subs[0], "b": s.Subs[1], "seq": sq})
+			if s.W && !lockstep {
 				checkpoint()
 			}
 		case "relink":
@@ -567,21 +745,37 @@ func runMesh(bi int, b behaviour, le *logrus.Entry, rows *[]map[string]any) {
 			if id == 0 {
 				vio.Fatal("relink of an unknown link %v", s.Subs)
 			}
-			m.connect(s.Subs[0], s.Subs[1], id)
-			emit(map[string]any{"e": "relink", "a": s.Subs[0], "b": s.Subs[1]})
-			if s.W {
+			// frames written before this point went over the replaced stream
+			if na := m.nodes[s.Subs[0]]; na != nil {
+				if old := na.ends[s.Subs[1]]; old != nil {
+					m.retire(old)
+					m.retire(old.peerEnd)
+				}
+			}
+			sq := gseq.Add(1)
+			cut[[2]string{s.Subs[0], s.Subs[1]}], cut[[2]string{s.Subs[1], s.Subs[0]}] = sq, sq
+			a0, b0 := s.Subs[0], s.Subs[1]
+			env(func() { m.connect(a0, b0, id) })
+			emit(map[string]any{"e": "relink", "a": s.Subs[0], "b": s.Subs[1], "seq": sq})
+			if s.W && !lockstep {
 				checkpoint()
 			}
 		case "linkup":
 			// a link comes up while the mesh is running (FloodSubDyn.tla)
+			freeRunIfDone := iterLeft == 0
+			if freeRunIfDone {
+				freeRun()
+			}
 			nextLink++
 			linkIDs[s.Subs[0]+"|"+s.Subs[1]] = nextLink
-			m.connect(s.Subs[0], s.Subs[1], nextLink)
+			a0, b0, id0 := s.Subs[0], s.Subs[1], nextLink
+			env(func() { m.connect(a0, b0, id0) })
 			emit(map[string]any{"e": "linkup", "a": s.Subs[0], "b": s.Subs[1]})
-			if s.W {
+			if s.W && !lockstep {
 				checkpoint()
 			}
 		case "freeze":
+			freeRun()
 			emit(map[string]any{"e": "freeze"})
 			checkpoint()
 		case "publish":
@@ -846,6 +1040,7 @@ func runOpener(cases string, out *vio.Out, le *logrus.Entry) {
 }
 
 func main() {
+	floodsub.VerifGate = gateHook
 	mode := flag.String("mode", "mesh", "")
 	cases := flag.String("cases", "", "")
 	outp := flag.String("out", "", "")
@@ -867,8 +1062,25 @@ func main() {
 		results := make([][]map[string]any, len(all))
 		sem := make(chan struct{}, 12)
 		var wg sync.WaitGroup
+		isLockstep := func(b behaviour) bool {
+			for _, s := range b.Steps {
+				if s.A == "itera" || s.A == "iterb" {
+					return true
+				}
+			}
+			return false
+		}
+		// lockstep behaviours first, one at a time (their schedule is observed through the goroutine states of the process)
+		for i := range all {
+			if isLockstep(all[i]) {
+				runMesh(i, all[i], le, &results[i])
+			}
+		}
 		for i := range all {
 			i := i
+			if isLockstep(all[i]) {
+				continue
+			}
 			wg.Add(1)
 			sem <- struct{}{}
 			go func() {
